@@ -217,6 +217,24 @@ Missing for the full statement: the forward (success) direction of `fetchKeys` /
 description of the token (the lookup side belongs to C15/C04; only the inversion direction of
 `fetchKeys` is proved in `Lemmas/SignerInv.lean`), and the lifting from one slot to `signBundles`. -/
 
+/-- `make_raw_rrsig` succeeds EXACTLY when type, algorithm, labels, TTL, the two times (in seconds)
+    and the tag pack into their wire fields (times and TTL: 32 bits), the signer name is the root, and
+    every key's RDATA is decodable and fits a 16-bit length — this is what the `makeRawRrsig … = .ok raw`
+    clause of `WellFormed.ready` below amounts to. -/
+theorem makeRawRrsig_succeeds_iff (sig : Signature) (keys : List Key) :
+    (∃ raw, makeRawRrsig sig keys = .ok raw) ↔
+      (sig.typeCovered < 65536 ∧ sig.algorithm < 256 ∧ inRange 8 sig.labels = true ∧
+       inRange 32 sig.originalTtl = true ∧ inRange 32 (tsSeconds sig.expiration) = true ∧
+       inRange 32 (tsSeconds sig.inception) = true ∧ inRange 16 sig.keyTag = true ∧
+       sig.signersName = "." ∧
+       ∃ rdatas, keys.mapM keyToRdata = .ok rdatas ∧ ∀ r ∈ rdatas, r.length < 65536) := by
+  constructor
+  · rintro ⟨raw, h⟩
+    obtain ⟨rdatas, hrd, hroot, h1, h2, h3, h4, h5, h6, h7, hlen, _⟩ := makeRawRrsig_ok h
+    exact ⟨h1, h2, h3, h4, h5, h6, h7, hroot, rdatas, hrd, hlen⟩
+  · rintro ⟨h1, h2, h3, h4, h5, h6, h7, hroot, rdatas, hrd, hlen⟩
+    exact ⟨_, makeRawRrsig_of h1 h2 h3 h4 h5 h6 h7 hroot hrd hlen⟩
+
 /-- Structural well-formedness of one slot once the keys are fetched: what must hold of the fetched
     signing keys `signing` and of the assembled key set `keys` for the signer to complete. -/
 structure WellFormed (ext : Externals) (cfg : SignerConfig) (bundle : Bundle) (keys : List Key)
